@@ -406,4 +406,9 @@ EXPLANATION = (
     'before sending) and the truncated-query timer discipline. C12.ROUTE (decided): decision table of which answers go at once / aggregated / protected (shared with C11.ROUTE). Not decided: every bound over '
     'arrival schedules and random draws [X].'
 )
+EXPLANATION_ADDENDUM = (
+    ' C12.WIRING also decides the liveness of the flush timer (every path leaves the queue empty or the timer armed) and that the removal of sent answers visits every queued group. C12.ROUTE (decided): answer-now / one-second-protected / aggregated routing table.'
+)
+EXPLANATION = EXPLANATION + EXPLANATION_ADDENDUM
+
 RULES = [window, wiring, route12]
